@@ -77,6 +77,36 @@ def run(rep):
     cases += [readcore.gen_boundary_case(r) for _ in range(200 if quick else 5000)]
     st = vlib.correspond(rep, "readCore", runner, core, vlib.load_corpus("C01") + cases, oracle=readcore.core_oracle_c01)
 
+    # ---- choose_filters bound: k nested uuencode layers through the real reader vs the model
+    import binascii
+    def uu(b):
+        out = b"begin 644 x\n"
+        for i in range(0, len(b), 45):
+            out += binascii.b2a_uu(b[i:i + 45])
+        return out + b"`\nend\n"
+    fcases, fmodel = [], []
+    payload = b"payload-0123456789"
+    for k in range(0, 29):
+        fcases.append(readcore.read_case(payload, source=(1,)))
+        fmodel.append(vfmt([-1, k, 99, 1]))
+        payload = uu(payload)
+    readall0 = vlib.compile_harness("readAll", "asan")
+    rcf, flines, ferr = readcore.run_readall(readall0, fcases)
+    rcm, mlines, merr = vlib.run_exe(runner, vlib.write_cases(fmodel, "filters.cases"))
+    nfilt_ok = 0
+    for k, (fl, ml) in enumerate(zip(flines, mlines)):
+        d, m = vparse(fl), vparse(ml)
+        opened = not (isinstance(d[0], list) and len(d[0]) == 1)      # ((open_status) ...) = open failed
+        real = (0 if opened else -30, (len(d[-2]) - 1) if opened else None)
+        if (m[0] == 0) != opened or (opened and m[1] != real[1]):
+            rep.violation("corr:filters", "choose_filters model and implementation disagree for %d nested filters: model %r, real %r" % (k, m, real),
+                          dict(correspondence="choose_filters", case=fcases[k][:2000], model=ml, impl=fl[:500]), found_input=False)
+        if opened and real[1] >= 25:
+            rep.violation("C01:filters:unbounded", "%d filters were stacked (MAX_NUMBER_FILTERS exceeded)" % real[1],
+                          dict(case=fcases[k][:2000], archive="nested-uuencode-%d" % k), found_input=True)
+        nfilt_ok += 1
+    rep.coverage["filter_depth_cases"] = nfilt_ok
+
     # ---- runtime part: sanitizer-backed search over real formats
     readall = vlib.compile_harness("readAll", "asan")
     mk = vlib.compile_harness("mkArchive", "asan")
